@@ -6,8 +6,10 @@ operations interpreted against the real flow and a plain-Python model:
                   header lists, bodies, trailers, websocket/tcp/udp messages incl. in-place mutation, DNS sections,
                   metadata incl. in-place mutation of nested values, marker, comment, error, connection attributes)
     restore X     set comment / marked / body / messages back to the value they had at the first backup
-    backup, revert, copy, edit_copy E
-After EVERY operation:
+    backup, revert, copy (from the original; replaces the previous copy)
+    edit_copy E, restore_copy X, backup_copy, revert_copy   the same operations on the copy
+Both flows keep being exercised in any order; each has its own model (a copy made while a backup exists has its own,
+equal backup).  After EVERY operation, for BOTH flows:
   * modified() == (a backup exists and the current state, ignoring the nested "backup" entry, differs from the state
     saved by backup());  repeated backup() without revert: the statement does not say which state is kept, so the model
     keeps *candidates* (first and latest) and only requires consistency with one of them;
@@ -15,8 +17,11 @@ After EVERY operation:
     backup is cleared (get_state()["backup"] is None, modified() False); without a backup revert changes nothing;
   * copy(): fresh id (differs from the original's and from every id seen before), equal content (state minus id/backup and
     attribute-level observation), live is False, type equal;
-  * isolation: an operation on the original never changes the copy's observation/state and vice versa (also for
-    in-place mutations of shared-looking structures: metadata values, message lists, header objects).
+  * isolation: an operation on one flow (edit, backup, revert, restore) never changes the other's state, attribute-level
+    observation or stored backup (get_state()["backup"]), also for in-place mutations of shared-looking structures
+    (metadata values, message lists, header objects) and for revert(), which consumes the backup dict;
+  * a reverted copy equals the backed-up content; which id it carries is not specified (the inherited backup holds
+    the original's id), so ids are ignored when comparing against an inherited backup.
 """
 import copy
 
@@ -51,8 +56,10 @@ def strategy(ctx):
             st.tuples(st.just("edit"), ep), st.tuples(st.just("edit"), ep), st.tuples(st.just("edit"), ep),
             st.tuples(st.just("edit"), nested), st.tuples(st.just("edit"), inplace), st.tuples(st.just("edit_copy"), inplace),
             st.tuples(st.just("backup")), st.tuples(st.just("backup")), st.tuples(st.just("revert")),
-            st.tuples(st.just("copy")), st.tuples(st.just("edit_copy"), ep),
+            st.tuples(st.just("copy")), st.tuples(st.just("copy")), st.tuples(st.just("edit_copy"), ep),
+            st.tuples(st.just("revert_copy")), st.tuples(st.just("revert_copy")), st.tuples(st.just("backup_copy")),
             st.tuples(st.just("restore"), st.sampled_from(["comment", "marked", "body", "messages", "metadata"])),
+            st.tuples(st.just("restore_copy"), st.sampled_from(["comment", "marked", "metadata"])),
         ).map(list)
         cases.append(st.fixed_dictionaries({
             "kind": st.just(kind),
@@ -136,114 +143,152 @@ def _restore(f, what, saved_obs):
                     m.from_client, m.content, m.timestamp = a, b, c
 
 
+class Side:
+    """one of the two flows (the original, or its latest copy) with the model's view of its backup"""
+
+    def __init__(self, flow, name):
+        self.f = flow
+        self.name = name
+        # candidate saved states: [state-minus-backup, observation, id_loose]; id_loose = the backup was inherited
+        # through copy(), so it carries the original's id (the statement does not say which id a reverted copy has)
+        self.cands = []
+
+    def snap(self):
+        s, b = _state(self.f)
+        return s, b, _obs(self.f)
+
+
+def _eq_state(c, s):
+    return (_strip_id(c[0]) == _strip_id(s)) if c[2] else (c[0] == s)
+
+
 def _run(case, ctx, kind):
-    f = fg.build(case["flow"])
-    cands = []          # candidate saved states: list of (state-minus-backup, observation)
-    cp = None           # the copy
-    cp_snap = None      # (state, obs) of the copy as last left by the harness
-    seen_ids = {f.id}
-    had_backup = edited_after = reverted = copied = False
+    orig = Side(fg.build(case["flow"]), "original")
+    cp = None
+    seen_ids = {orig.f.id}
+    flags = {"backup": False, "edited": False, "reverted": False, "copied": False, "copy-reverted": False,
+             "revert-with-twin-backup": False}
 
-    def check_modified(tag):
+    def check_modified(side, tag):
+        f = side.f
         s, _ = _state(f)
-        got = f.modified()
-        if not cands:
+        got = bool(f.modified())
+        if not side.cands:
             if got:
-                ctx.fail("modified-without-backup:" + kind, "%s: modified() is True but no backup exists" % tag)
+                ctx.fail("modified-without-backup:" + kind, "%s: %s.modified() is True but it has no backup" % (tag, side.name))
             return
-        ok = [c for c in cands if (c[0] != s) == bool(got)]
+        # id_loose candidates: the id may or may not count as a difference
+        ok = [c for c in side.cands if (c[0] != s) == got or (c[2] and (_strip_id(c[0]) != _strip_id(s)) == got)]
         if not ok:
-            differs = [c[0] != s for c in cands]
-            if got and not any(differs):
-                ctx.fail("modified-true-but-state-equals-backup:" + kind, "%s: modified() is True, current state == backed-up state" % tag)
+            if got:
+                ctx.fail("modified-true-but-state-equals-backup:" + kind, "%s: %s.modified() is True, current state == backed-up state" % (tag, side.name))
             else:
-                ctx.fail("modified-false-but-state-differs:%s:%s" % (kind, _top(_diffpath(cands[0][0], s))), "%s: modified() is %r, state differs from backup at %s" % (tag, got, _diffpath(cands[0][0], s)))
+                d = _diffpath(_strip_id(side.cands[0][0]), _strip_id(s))
+                ctx.fail("modified-false-but-state-differs:%s:%s" % (kind, _top(d)), "%s: %s.modified() is False, state differs from its backup at %s" % (tag, side.name, d))
             return
-        cands[:] = ok
+        side.cands[:] = ok
 
-    def check_copy_untouched(tag):
-        if cp is None:
-            return
-        s, _ = _state(cp)
-        o = _obs(cp)
-        if s != cp_snap[0] or o != cp_snap[1]:
-            ctx.fail("copy-changed-by-original:%s:%s" % (kind, _top(_diffpath(cp_snap[1], o) or _diffpath(cp_snap[0], s))), "%s changed the copy at %s" % (tag, _diffpath(cp_snap[1], o) or _diffpath(cp_snap[0], s)))
+    def apply(side, other, k, arg, tag):
+        """one operation on side.f; `other` (may be None) must not change in any observable way, backup included"""
+        f = side.f
+        before = side.snap()
+        other_before = other.snap() if other is not None else None
+        if k == "edit":
+            fg.apply_edit(f, arg)
+            if side.cands and _state(f)[0] != before[0]:
+                flags["edited"] = True
+        elif k == "restore":
+            if side.cands:
+                _restore(f, arg, side.cands[0][1])
+        elif k == "backup":
+            f.backup()
+            snap = [before[0], before[2], False]
+            if not side.cands:
+                side.cands.append(snap)
+            elif snap[0] != side.cands[-1][0]:
+                side.cands[:] = [side.cands[0], snap]
+            flags["backup"] = True
+            s, b = _state(f)
+            if s != before[0]:
+                ctx.fail("backup-changes-state:" + kind, "backup() changed the %s at %s" % (side.name, _diffpath(before[0], s)))
+        elif k == "revert":
+            if side.cands and other is not None and other.cands:
+                flags["revert-with-twin-backup"] = True
+            f.revert()
+            s, b = _state(f)
+            o = _obs(f)
+            if not side.cands:
+                if s != before[0] or o != before[2]:
+                    ctx.fail("revert-without-backup-changes-state:" + kind, "%s at %s" % (side.name, _diffpath(before[0], s) or _diffpath(before[2], o)))
+            else:
+                flags["reverted"] = True
+                if side.name == "copy":
+                    flags["copy-reverted"] = True
+                hit = [c for c in side.cands if _eq_state(c, s)]
+                if not hit:
+                    d = _diffpath(_strip_id(side.cands[0][0]), _strip_id(s)) or ".id"
+                    ctx.fail("revert-state-differs:%s:%s" % (kind, _top(d)), "after revert the %s differs from its backed-up state at %s" % (side.name, d))
+                elif not [c for c in hit if _strip_id(c[1]) == _strip_id(o) and (c[2] or c[1] == o)]:
+                    d = _diffpath(_strip_id(hit[0][1]), _strip_id(o)) or ".id"
+                    ctx.fail("revert-attr-differs:%s:%s" % (kind, _top(d)), "after revert attribute %s of the %s differs from its value at backup time" % (d, side.name))
+                if b is not None or f._backup is not None:
+                    ctx.fail("revert-keeps-backup:" + kind, "backup of the %s still present after revert" % side.name)
+                side.cands[:] = []
+                if f.modified():
+                    ctx.fail("modified-after-revert:" + kind, "%s.modified() True right after revert()" % side.name)
+        if other is not None:
+            now = other.snap()
+            if now != other_before:
+                what = "copy-changed-by-original" if other.name == "copy" else "original-changed-by-copy"
+                d = _diffpath(other_before[2], now[2]) or _diffpath(other_before[0], now[0])
+                if d is None:
+                    d = ".backup" + (_diffpath(other_before[1], now[1]) or "")
+                ctx.fail("%s:%s:%s" % (what, kind, _top(d)), "%s on the %s changed the %s at %s" % (tag, side.name, other.name, d))
 
     for op in case["ops"]:
         k = op[0]
         tag = repr(op)[:120]
-        before_s, before_b = _state(f)
-        before_o = _obs(f)
-        if k == "edit":
-            fg.apply_edit(f, op[1])
-            if cands and _state(f)[0] != before_s:
-                edited_after = True
-        elif k == "restore":
-            if cands:
-                _restore(f, op[1], cands[0][1])
-        elif k == "backup":
-            f.backup()
-            snap = (before_s, before_o)
-            if not cands:
-                cands.append(snap)
-            elif snap[0] != cands[-1][0]:
-                cands[:] = [cands[0], snap]
-            had_backup = True
-            s, b = _state(f)
-            if s != before_s:
-                ctx.fail("backup-changes-state:" + kind, "backup() changed the flow at %s" % _diffpath(before_s, s))
-        elif k == "revert":
-            f.revert()
-            s, b = _state(f)
-            o = _obs(f)
-            if not cands:
-                if s != before_s or o != before_o:
-                    ctx.fail("revert-without-backup-changes-state:" + kind, "at %s" % (_diffpath(before_s, s) or _diffpath(before_o, o)))
-            else:
-                reverted = True
-                hit = [c for c in cands if c[0] == s]
-                if not hit:
-                    ctx.fail("revert-state-differs:%s:%s" % (kind, _top(_diffpath(cands[0][0], s))), "after revert the state differs from the backed-up state at %s" % _diffpath(cands[0][0], s))
-                elif not [c for c in hit if c[1] == o]:
-                    ctx.fail("revert-attr-differs:%s:%s" % (kind, _top(_diffpath(hit[0][1], o))), "after revert attribute %s differs from its value at backup time" % _diffpath(hit[0][1], o))
-                if b is not None or f._backup is not None:
-                    ctx.fail("revert-keeps-backup:" + kind, "backup still present after revert")
-                cands[:] = []
-                if f.modified():
-                    ctx.fail("modified-after-revert:" + kind, "modified() True right after revert()")
-        elif k == "copy":
-            cp = f.copy()
-            copied = True
-            if cp.id in seen_ids:
-                ctx.fail("copy-id-not-fresh:" + kind, "copy has id %r which was seen before" % cp.id)
-            seen_ids.add(cp.id)
-            if type(cp) is not type(f):
-                ctx.fail("copy-type:" + kind, repr(type(cp)))
-            if cp.live:
+        arg = op[1] if len(op) > 1 else None
+        if k == "copy":
+            f = orig.f
+            before = orig.snap()
+            c = f.copy()
+            flags["copied"] = True
+            if c.id in seen_ids:
+                ctx.fail("copy-id-not-fresh:" + kind, "copy has id %r which was seen before" % c.id)
+            seen_ids.add(c.id)
+            if type(c) is not type(f):
+                ctx.fail("copy-type:" + kind, repr(type(c)))
+            if c.live:
                 ctx.fail("copy-live:" + kind, "copy.live is True")
-            s, b = _state(f)
-            cs, cb = _state(cp)
-            co = _obs(cp)
-            if _strip_id(cs) != _strip_id(s):
-                ctx.fail("copy-state-differs:%s:%s" % (kind, _top(_diffpath(_strip_id(s), _strip_id(cs)))), "copy differs at %s" % _diffpath(_strip_id(s), _strip_id(cs)))
-            elif _strip_id(co) != _strip_id(_obs(f)):
-                ctx.fail("copy-attr-differs:%s:%s" % (kind, _top(_diffpath(_strip_id(_obs(f)), _strip_id(co)))), "copy differs at %s" % _diffpath(_strip_id(_obs(f)), _strip_id(co)))
-            if s != before_s:
-                ctx.fail("copy-changes-original:" + kind, "at %s" % _diffpath(before_s, s))
-            cp_snap = (cs, co)
-        elif k == "edit_copy":
+            cp = Side(c, "copy")
+            # a copy made while a backup exists has its own, equal backup
+            cp.cands = [[copy.deepcopy(x[0]), copy.deepcopy(x[1]), True] for x in orig.cands]
+            cs, cb, co = cp.snap()
+            if _strip_id(cs) != _strip_id(before[0]):
+                d = _diffpath(_strip_id(before[0]), _strip_id(cs))
+                ctx.fail("copy-state-differs:%s:%s" % (kind, _top(d)), "copy differs at %s" % d)
+            elif _strip_id(co) != _strip_id(before[2]):
+                d = _diffpath(_strip_id(before[2]), _strip_id(co))
+                ctx.fail("copy-attr-differs:%s:%s" % (kind, _top(d)), "copy differs at %s" % d)
+            if (cb is None) != (before[1] is None):
+                ctx.fail("copy-backup-presence:" + kind, "original has %s backup, copy has %s" % ("a" if before[1] is not None else "no", "a" if cb is not None else "no"))
+            if orig.snap() != before:
+                ctx.fail("copy-changes-original:" + kind, "at %s" % (_diffpath(before[2], orig.snap()[2]) or ".backup"))
+        elif k.endswith("_copy"):
             if cp is not None:
-                fg.apply_edit(cp, op[1])
-                cp_snap = (_state(cp)[0], _obs(cp))
-                s, b = _state(f)
-                o = _obs(f)
-                if s != before_s or o != before_o:
-                    ctx.fail("original-changed-by-copy:%s:%s" % (kind, _top(_diffpath(before_o, o) or _diffpath(before_s, s))), "%s on the copy changed the original at %s" % (tag, _diffpath(before_o, o) or _diffpath(before_s, s)))
-        if k != "edit_copy":
-            check_copy_untouched(tag)
-        check_modified(tag)
+                apply(cp, orig, k[:-5], arg, tag)
+        else:
+            apply(orig, cp, k, arg, tag)
+        check_modified(orig, tag)
+        if cp is not None:
+            check_modified(cp, tag)
         ctx.cls("op:" + k)
-    if had_backup and edited_after and (reverted or copied):
+    if flags["backup"] and flags["edited"] and (flags["reverted"] or flags["copied"]):
         ctx.nt((kind, repr(case)), kind)
+        if flags["copy-reverted"]:
+            ctx.cls("copy-reverted")
+        if flags["revert-with-twin-backup"]:
+            ctx.cls("revert-while-both-have-backup")
     else:
         ctx.cls("trivial-history")
